@@ -310,6 +310,14 @@ fn parse_scenario(op: &str) -> Option<Scenario> {
 const PROTOS: [&str; 4] = ["http", "https", "tcp", "udp"];
 const BODY: usize = 3000;
 
+/// size of the response of the `buftail` phase: far more than sozu's buffer and
+/// the kernel buffers of a client that does not read
+const BIG: usize = 2 << 20;
+
+fn big_body(i: usize) -> Vec<u8> {
+    (0..BIG).map(|k| b'A' + ((k / 7 + k * 3 + i) % 26) as u8).collect()
+}
+
 fn body_of(i: usize) -> Vec<u8> {
     (0..BODY).map(|k| b'a' + ((k * 7 + i * 13) % 26) as u8).collect()
 }
@@ -323,18 +331,20 @@ struct Client {
     idx: usize,
     done: bool,
     tcp: bool,
+    /// backend thread still pushing a large response
+    writer: Option<JoinHandle<()>>,
 }
 
 impl Client {
     /// has a request (or stream) under way
     fn inflight(&self) -> bool {
-        matches!(self.phase.as_str(), "head" | "sent" | "midbody" | "tcpmid")
+        matches!(self.phase.as_str(), "head" | "sent" | "midbody" | "tcpmid" | "buftail")
     }
     /// ... that the worker waits for before acknowledging a SoftStop: an HTTP
     /// request whose head was received in full (`Mux::shutting_down` only
     /// looks at linked streams; `TcpSession::shutting_down` is always true)
     fn holds_stop(&self) -> bool {
-        matches!(self.phase.as_str(), "sent" | "midbody")
+        matches!(self.phase.as_str(), "sent" | "midbody" | "buftail")
     }
 }
 
@@ -345,6 +355,42 @@ impl Run {
     fn fail(&mut self, class: &str, detail: String) {
         self.r.oracle.push((class.to_string(), detail));
     }
+}
+
+/// a client whose kernel receive buffer is tiny (set before connect, so the
+/// advertised window is small from the start): a slow reader
+fn connect_rcvbuf(addr: SocketAddr, rcvbuf: i32) -> Result<RawConn, String> {
+    use std::os::unix::io::FromRawFd;
+    let fam = if addr.is_ipv4() { libc::AF_INET } else { libc::AF_INET6 };
+    let fd = unsafe { libc::socket(fam, libc::SOCK_STREAM | libc::SOCK_CLOEXEC, 0) };
+    if fd < 0 {
+        return Err("socket()".into());
+    }
+    let stream = unsafe { TcpStream::from_raw_fd(fd) };
+    unsafe {
+        libc::setsockopt(fd, libc::SOL_SOCKET, libc::SO_RCVBUF, &rcvbuf as *const i32 as *const libc::c_void, 4);
+        let mut st: libc::sockaddr_storage = std::mem::zeroed();
+        let len = match addr {
+            SocketAddr::V4(v4) => {
+                let sin = &mut st as *mut _ as *mut libc::sockaddr_in;
+                (*sin).sin_family = libc::AF_INET as u16;
+                (*sin).sin_port = v4.port().to_be();
+                (*sin).sin_addr.s_addr = u32::from_ne_bytes(v4.ip().octets());
+                std::mem::size_of::<libc::sockaddr_in>()
+            }
+            SocketAddr::V6(v6) => {
+                let sin = &mut st as *mut _ as *mut libc::sockaddr_in6;
+                (*sin).sin6_family = libc::AF_INET6 as u16;
+                (*sin).sin6_port = v6.port().to_be();
+                (*sin).sin6_addr.s6_addr = v6.ip().octets();
+                std::mem::size_of::<libc::sockaddr_in6>()
+            }
+        };
+        if libc::connect(fd, &st as *const _ as *const libc::sockaddr, len as u32) != 0 {
+            return Err(format!("connect {addr}: {}", std::io::Error::last_os_error()));
+        }
+    }
+    Ok(RawConn::from_stream(stream))
 }
 
 fn rc_connect(addr: SocketAddr) -> Result<RawConn, String> {
@@ -421,16 +467,31 @@ fn run_with_old(sc: &Scenario, run: &mut Run, w1: &mut HW) -> Result<(), String>
             b.read_until_len(17, T);
             b.write_all(&body_of(i)[..BODY / 2], T).map_err(|e| e.to_string())?;
             c.read_until_len(BODY / 2, T);
-            clients.push(Client { phase: phase.clone(), conn: Some(c), back: Some(b), backend, idx: i, done: false, tcp: true });
+            clients.push(Client { phase: phase.clone(), conn: Some(c), back: Some(b), backend, idx: i, done: false, tcp: true, writer: None });
             continue;
         }
         let host = format!("c{i}.local");
         w1.ok(RequestType::AddHttpFrontend(RequestHttpFrontend { cluster_id: Some(cid.clone()), address: front.into(), hostname: host.clone(), path: PathRule::prefix("/".to_string()), position: RulePosition::Tree.into(), ..Default::default() }))?;
         w1.ok(RequestType::AddBackend(AddBackend { cluster_id: cid.clone(), backend_id: format!("{cid}-0"), address: backend.addr.into(), load_balancing_parameters: Some(LoadBalancingParams::default()), sticky_id: None, backup: None }))?;
-        let mut c = rc_connect(front)?;
+        let mut c = if phase == "buftail" { connect_rcvbuf(front, 4096)? } else { rc_connect(front)? };
         let req = format!("GET /r{i} HTTP/1.1\r\nHost: {host}\r\n\r\n");
         let mut back = None;
+        let mut writer = None;
         match phase.as_str() {
+            "buftail" => {
+                // the backend answers with a large, cleanly delimited response and closes; the
+                // client does not read: sozu ends up holding the tail of a complete response
+                c.write_all(req.as_bytes(), T).map_err(|e| e.to_string())?;
+                let mut b = backend.accept(T).map_err(|e| format!("backend accept: {e}"))?;
+                b.read_until(b"\r\n\r\n", T);
+                writer = Some(thread::spawn(move || {
+                    let head = format!("HTTP/1.1 200 OK\r\nContent-Length: {BIG}\r\nConnection: close\r\n\r\n");
+                    let _ = b.write_all(head.as_bytes(), Duration::from_secs(30));
+                    let _ = b.write_all(&big_body(i), Duration::from_secs(30));
+                    b.close();
+                }));
+                thread::sleep(Duration::from_millis(30));
+            }
             "connected" => {}
             "head" => c.write_all(&req.as_bytes()[..req.len() - 10], T).map_err(|e| e.to_string())?,
             "sent" | "midbody" | "idle" => {
@@ -459,7 +520,7 @@ fn run_with_old(sc: &Scenario, run: &mut Run, w1: &mut HW) -> Result<(), String>
             }
             _ => return Err(format!("unknown phase {phase}")),
         }
-        clients.push(Client { phase: phase.clone(), conn: Some(c), back, backend, idx: i, done: false, tcp: false });
+        clients.push(Client { phase: phase.clone(), conn: Some(c), back, backend, idx: i, done: false, tcp: false, writer });
     }
 
     // ---- connector hammering the addresses during the hand-over
@@ -575,7 +636,7 @@ fn run_with_old(sc: &Scenario, run: &mut Run, w1: &mut HW) -> Result<(), String>
 
         // ---- some in-flight requests finish before the stop
         let mut finished = 0;
-        for c in clients.iter_mut().filter(|c| c.inflight()) {
+        for c in clients.iter_mut().filter(|c| c.inflight() && c.phase != "buftail") {
             if finished >= sc.early {
                 break;
             }
@@ -799,6 +860,42 @@ fn finish_client(c: &mut Client, run: &mut Run) {
             }
             return Ok(());
         }
+        if c.phase == "buftail" {
+            // a slow reader: small reads with pauses, until the declared length or the end of the stream
+            let want = big_body(i);
+            let until = Instant::now() + Duration::from_secs(20);
+            let mut head_len = None;
+            loop {
+                if head_len.is_none() {
+                    head_len = verif_harness::rig::find(&conn.received, b"\r\n\r\n").map(|p| p + 4);
+                }
+                if let Some(h) = head_len {
+                    if conn.received.len() >= h + BIG {
+                        break;
+                    }
+                }
+                if Instant::now() > until {
+                    return Err(format!("still reading after 20 s ({} bytes)", conn.received.len()));
+                }
+                match conn.read_some_max(16384, Duration::from_millis(500)) {
+                    ReadEnd::Closed | ReadEnd::Reset => break,
+                    _ => {}
+                }
+                thread::sleep(Duration::from_micros(300));
+            }
+            if let Some(w) = c.writer.take() {
+                let _ = w.join();
+            }
+            let h = head_len.ok_or("no response head")?;
+            let got = &conn.received[h..];
+            if got.len() != BIG {
+                return Err(format!("client got {} of {BIG} body bytes of a complete `Connection: close` response (lost tail: {})", got.len(), BIG - got.len().min(BIG)));
+            }
+            if got != &want[..] {
+                return Err("body bytes differ".into());
+            }
+            return Ok(());
+        }
         let head = format!("HTTP/1.1 200 OK\r\nContent-Length: {BODY}\r\n\r\n");
         match c.phase.as_str() {
             "head" => {
@@ -829,7 +926,13 @@ fn finish_client(c: &mut Client, run: &mut Run) {
     })();
     c.done = true;
     if let Err(e) = res {
-        let class = if c.tcp { "inflight-request-cut:tcp-stream".to_string() } else { format!("inflight-request-cut:{}", c.phase) };
+        let class = if c.tcp {
+            "inflight-request-cut:tcp-stream".to_string()
+        } else if c.phase == "buftail" {
+            "inflight-request-cut:buffered-tail".to_string()
+        } else {
+            format!("inflight-request-cut:{}", c.phase)
+        };
         run.fail(&class, format!("client {i} ({}): {e}", c.phase));
     }
 }
@@ -838,6 +941,8 @@ fn finish_client(c: &mut Client, run: &mut Run) {
 
 struct Handover {
     max_listeners: u64,
+    /// `--family buffered-tail`: only scenarios with the slow-reader phase, only its class reported
+    family: Option<String>,
 }
 
 impl Area for Handover {
@@ -848,15 +953,24 @@ impl Area for Handover {
         "one real old worker with 1..N listeners (http/https/tcp/udp mixes, 127.0.0.1 and [::1]), 0..4 scripted HTTP clients in a chosen phase (connected, partial head, request sent, mid-body of a slow response, idle keep-alive) and optionally a TCP stream; ReturnListenSockets + receive_listeners + a new worker started with the returned Listeners and activated from the state, a connector hammering the addresses meanwhile; 0..k in-flight requests completed before SoftStop of the old worker, the rest one by one after it; 30% soft stop without hand-over; non-trivial = at least one request in flight or at least 2 listeners".into()
     }
     fn cases(&self, thorough: bool) -> u64 {
-        if thorough {
-            600
-        } else {
-            64
+        match (self.family.is_some(), thorough) {
+            (true, false) => 12,
+            (true, true) => 120,
+            (false, true) => 600,
+            (false, false) => 64,
         }
     }
     fn corpus(&self) -> Vec<Vec<String>> {
         let s = |x: &str| vec!["new".to_string(), x.to_string()];
+        if self.family.as_deref() == Some("buffered-tail") {
+            return vec![
+                s("handover L=1,0,0,0 v6=0 clients=buftail early=0 mode=stop hammer=0"),
+                s("handover L=1,0,0,0 v6=0 clients=buftail early=0 mode=handover hammer=0"),
+            ];
+        }
         vec![
+            s("handover L=1,0,0,0 v6=0 clients=buftail early=0 mode=stop hammer=0"),
+            s("handover L=2,0,0,0 v6=100 clients=sent+buftail early=0 mode=handover hammer=1"),
             s("handover L=1,0,0,0 v6=0 clients=sent early=0 mode=handover hammer=1"),
             s("handover L=1,1,1,1 v6=50 clients=idle+midbody+head+connected early=1 mode=handover hammer=1"),
             s("handover L=1,0,1,0 v6=0 clients=sent+tcpmid early=0 mode=stop hammer=0"),
@@ -879,6 +993,13 @@ impl Area for Handover {
         let mut clients: Vec<String> = (0..n).map(|_| rng.pick(&["connected", "head", "sent", "sent", "midbody", "midbody", "idle"]).to_string()).collect();
         if counts[2] > 0 && rng.chance(1, 4) {
             clients.push("tcpmid".into());
+        }
+        if self.family.as_deref() == Some("buffered-tail") {
+            clients.truncate(2);
+            clients.retain(|c| c != "tcpmid" && c != "head");
+            clients.push("buftail".into());
+        } else if rng.chance(1, 6) {
+            clients.push("buftail".into());
         }
         let inflight = clients.iter().filter(|c| ["head", "sent", "midbody"].contains(&c.as_str())).count();
         let early = rng.below(inflight as u64 + 1) as usize;
@@ -919,7 +1040,7 @@ impl Area for Handover {
             for c in &sc.clients {
                 run.r.tags.push(format!("client:{c}"));
             }
-            if n >= 2 || sc.clients.iter().any(|c| ["head", "sent", "midbody", "tcpmid"].contains(&c.as_str())) {
+            if n >= 2 || sc.clients.iter().any(|c| ["head", "sent", "midbody", "tcpmid", "buftail"].contains(&c.as_str())) {
                 run.r.nontrivial = true;
             }
             if let Err(e) = run_scenario(&sc, &mut run) {
@@ -929,6 +1050,9 @@ impl Area for Handover {
         let set: BTreeSet<String> = run.r.tags.drain(..).collect();
         run.r.tags = set.into_iter().collect();
         let _ = BTreeMap::<u8, u8>::new();
+        if self.family.as_deref() == Some("buffered-tail") {
+            run.r.oracle.retain(|(c, _)| c == "inflight-request-cut:buffered-tail");
+        }
         run.r
     }
     fn classify_mismatch(&self, _o: &[String], _i: &[String], _m: &[String]) -> String {
@@ -941,5 +1065,6 @@ fn main() {
     let args = parse_args();
     let _ = DRIVER.set(args.driver.clone());
     let max = if args.thorough() { 200 } else { 40 };
-    std::process::exit(run_area(&Handover { max_listeners: max }, &args));
+    let family = args.extra.get("family").cloned();
+    std::process::exit(run_area(&Handover { max_listeners: max, family }, &args));
 }
